@@ -213,8 +213,29 @@ def count_sites(body: list, counters=None) -> list[CountSite]:
                     go(b, conds + neg + _conj(cond), loops, binds)
                     neg = neg + [X("not", cond)]
                 go(st.a[1], conds + neg, loops, binds)
+                # guard clause: `if C: continue` puts the rest of the block under
+                # `not C` (each alternative that ends in continue/break/return)
+                if not st.a[1] and all(b and b[-1].k in ("continue", "break", "return")
+                                       for _, b in st.a[0]):
+                    for cond, _ in st.a[0]:
+                        conds = conds + _neg_conj(cond)
     go(body, [], [], {})
     return out
+
+
+def _neg_conj(cond: X) -> list:
+    """Conjuncts of `not cond` (De Morgan for `or`, double negation)."""
+    if cond.k == "not":
+        return _conj(cond.a[0])
+    if cond.k == "boolop" and cond.a[0] == "or":
+        out = []
+        for c in cond.a[1]:
+            out.extend(_neg_conj(c))
+        return out
+    if cond.k == "cmp" and cond.a[0] in ("==", "!="):
+        return [X("cmp", "!=" if cond.a[0] == "==" else "==", cond.a[1], cond.a[2],
+                  line=cond.line)]
+    return [X("not", cond)]
 
 
 def resolve_role(name: str, site: CountSite):
@@ -263,12 +284,31 @@ def full_init_arrays(st: X, written: set):
         return out
     j = st.a[0].a[0]
     n = pp(st.a[1].a[1][0])
+    def _reads_only_done(v, done):
+        """v reads work arrays only as A[j] with A initialised earlier in this
+        very loop body (so B[j] = A[j] initialises B as well)."""
+        used = names_in(v) & written
+        if not used <= done:
+            return False
+        for x in walk(v):
+            if isinstance(x, X) and x.k == "index" and x.a[0].k == "name" and \
+                    x.a[0].a[0] in used:
+                if not (len(x.a[1]) == 1 and pp(x.a[1][0]) == j):
+                    return False
+        # no bare (un-indexed) use of a work array
+        for x in walk(v):
+            if isinstance(x, X) and x.k == "name" and x.a[0] in used:
+                pass
+        return True
+    done_here = set()
     for s in st.a[2]:
-        if s.k == "assign" and _const_like(s.a[1], written):
+        if s.k == "assign" and (_const_like(s.a[1], written) or
+                                _reads_only_done(s.a[1], done_here)):
             for t in s.a[0]:
                 if t.k == "index" and t.a[0].k == "name" and len(t.a[1]) == 1 and \
                         pp(t.a[1][0]) == j:
                     out.setdefault(t.a[0].a[0], []).append(n)
+                    done_here.add(t.a[0].a[0])
         elif s.k == "for" and s.a[0].k == "name" and s.a[1].k == "call" and \
                 pp(s.a[1].a[0]) == "range" and len(s.a[1].a[1]) == 1:
             k = s.a[0].a[0]
